@@ -270,6 +270,8 @@ const gchar *g_strerror (gint errnum); int g_strcmp0 (const char *str1, const ch
 gboolean g_str_equal (gconstpointer v1, gconstpointer v2); guint g_str_hash (gconstpointer v);
 gboolean g_str_has_prefix (const gchar *str, const gchar *prefix); gboolean g_str_has_suffix (const gchar *str, const gchar *suffix);
 gboolean g_direct_equal (gconstpointer v1, gconstpointer v2); guint g_direct_hash (gconstpointer v);
+#define G_ASCII_DTOSTR_BUF_SIZE (29 + 10)
+gchar *g_ascii_dtostr (gchar *buffer, gint buf_len, gdouble d); gchar *g_ascii_formatd (gchar *buffer, gint buf_len, const gchar *format, gdouble d);
 gchar *g_markup_vprintf_escaped (const char *format, va_list args); gchar *g_markup_escape_text (const gchar *text, gssize length);
 GString *g_string_new (const gchar *init); gchar *g_string_free (GString *string, gboolean free_segment);
 GString *g_string_append (GString *string, const gchar *val); GString *g_string_append_c (GString *string, gchar c);
